@@ -420,3 +420,33 @@ func VerifWrPartition() {
 	verifrt.Assert(len(a) == len(b), "C09:output-length-differs")
 	verifrt.Assert(vhEqual(a, b), "C09:output-differs")
 }
+
+// VerifWrGaps (C01): two byte values x < y (symbolic, case-split) so that every
+// run length of unused literal symbols between them, before them and up to the
+// end-of-block symbol occurs: exercises the run-length coding of code lengths
+// in the dynamic header (symbols 16/17/18 and their boundaries).
+func VerifWrGaps() {
+	setting := verifrt.Pick("setting", 7)
+	tinyW := verifrt.Param("W")
+	x := int(verifrt.U8())
+	y := int(verifrt.U8())
+	verifrt.Assume(x >= verifrt.Param("XLO") && x <= verifrt.Param("XHI") && y > x)
+	x = verifrt.Concretize(x)
+	y = verifrt.Concretize(y)
+	n := verifrt.Param("LEN")
+	data := make([]byte, n)
+	for i := range data {
+		if i%3 == 0 {
+			data[i] = byte(y)
+		} else {
+			data[i] = byte(x)
+		}
+	}
+	sink := &vwSink{}
+	w := vwNew(setting, sink, tinyW)
+	_, e1 := w.Write(data)
+	e2 := w.Close()
+	verifrt.Assert(e1 == nil && e2 == nil, "C01:write-fails")
+	verifrt.Cover("closed")
+	vwCheckStream(sink.b, data, false, "C01", 0)
+}
